@@ -270,6 +270,11 @@ Proof.
   unfold hold_ok. rewrite E1, E2, E3, E4, E5, E6, E7, E8, E9, C1, C2, C3, C4. repeat split; auto.
 Qed.
 
+Lemma hold_ok_data l k lid ld : hold_ok l k lid -> hold_ok (l <| l_data := ld |>) k lid.
+Proof. destruct l. intros H. exact H. Qed.
+Lemma hold_ok_logged l k lid x y : hold_ok l k lid -> hold_ok (l <| l_conn := x |> <| l_data := y |> <| l_isaof := true |>) k lid.
+Proof. destruct l. unfold hold_ok. cbn. intros (H1 & H2 & H3 & H4 & H5 & H6 & H7); repeat split; tauto. Qed.
+
 Lemma update_and_rearm_mv s k r d l q rq tmo ex o :
   sees s k r (mkV (Some (held_mgr r d)) (Some l) q) -> hold_ok l k k -> (ex = 32767 \/ ex = 65535) ->
   exists l', update_and_rearm s k r (kvc rq 34 k k tmo ex o) = (setl s r l', []) /\ hold_ok l' k k /\ l_data l' = l_data l.
@@ -323,7 +328,7 @@ Proof.
   change (has 34 LOCK_FLAG_SHOW) with false. cbn [andb]. cbv iota beta.
   unfold get_locked_lock. cbn [m_cur held_mgr]. change (c_lockid c) with k.
   rewrite (sees_getl _ _ _ _ _ S eq_refl), H9, N.eqb_refl.
-  Show. rewrite H3. change (negb (255 =? 255)) with false. cbv iota beta.
+  rewrite !(sees_getl _ _ _ _ _ S eq_refl), H3. change (negb (255 =? 255)) with false. cbv iota beta.
   change (has (c_flag c) LOCK_FLAG_UPDATE) with true. cbv iota beta.
   change (has_data_flag c) with true. cbv iota beta.
   destruct (process_data_mv s k r c _ _ _ o S eq_refl Ho Hw Hwd Hfx) as (s1 & cur' & ld' & Ep & Ha & Hwc & M1).
@@ -332,7 +337,7 @@ Proof.
   set (l1 := l <| l_data := ld' |>) in *.
   assert (G1 : getl s1 r = l1) by apply (sees_getl _ _ _ _ _ (proj1 M1) eq_refl).
   assert (Gm1 : getm s1 k = held_mgr r d <| m_data := cur' |>) by apply (sees_getm _ _ _ _ _ (proj1 M1) eq_refl).
-  assert (Hh1 : hold_ok l1 k k) by (apply (hold_ok_cmd l k k (l_cmd l) Hh); auto; destruct (l_cmd l); auto).
+  assert (Hh1 : hold_ok l1 k k) by (apply hold_ok_data; exact Hh).
   rewrite !G1, !Gm1.
   match goal with |- context [if ?b then _ else _] =>
     lazymatch b with _ && check_locked_equal _ _ _ => destruct b eqn:Eeq end end.
@@ -366,5 +371,141 @@ Proof.
       unfold data_of. rewrite (sees_getm _ _ _ _ _ S eq_refl). reflexivity. }
     split; [rewrite A1; exact Ha|]. split; [apply A2; exact Hwc|].
     split; [|split; [exact S4|eapply frame_trans; [exact F13|exact F4]]].
-    apply (hold_ok_cmd l2 k k (l_cmd l2) Hh2); try reflexivity; try apply Hh2.
+    apply hold_ok_logged. exact Hh2.
+Qed.
+
+(* ---------------------------------------------------------------------------------------------- UNLOCK (DEL) *)
+Definition delc (rq k : N) : cmd := mkCmd false rq 1 k k 0 0 0 0 0 0 None.
+
+Lemma unlock_free s rq k :
+  aget (mgrs s) k = None ->
+  exists s' evs, finish (unlock_step s the_conn (delc rq k)) = (s', evs) /\
+    find_panic evs = None /\ find_reply rq evs = Some (R_UNLOCK_ERROR, None) /\
+    mgrs s' = mgrs s /\ Types.store s' = Types.store s /\ elong s' = elong s /\ next s' = next s /\
+    leader s' = leader s /\ now s' = now s /\ checkE s' = checkE s.
+Proof.
+  intros H. unfold unlock_step. cbn [c_key delc]. rewrite H. unfold finish.
+  eexists _, _. split; [reflexivity|]. split; [reflexivity|]. split.
+  { cbn [find_reply reply c_req]. unfold the_conn. rewrite !N.eqb_refl. reflexivity. }
+  repeat split; reflexivity.
+Qed.
+
+(* LockManager.PushUnLockAof of a released hold *)
+Lemma push_unlock_aof_mv s k r hc c isaof fl m l q :
+  sees s k r (mkV (Some m) (Some l) q) -> leader s = true -> has (c_flag c) UNLOCK_FLAG_FROM_AOF = false ->
+  exists s' rec cur2 ld2, push_unlock_aof s k r hc (Some c) isaof fl = (s', [EAof rec]) /\
+    moves s s' k r (mkV (Some (m <| m_data := cur2 |>)) (Some (l <| l_data := ld2 |> <| l_isaof := isaof |>)) q).
+Proof.
+  intros S HL Hf. unfold push_unlock_aof. rewrite HL, Hf. cbn [negb].
+  rewrite (sees_getl _ _ _ _ _ S eq_refl), (sees_getm _ _ _ _ _ S eq_refl).
+  destruct (aof_lock_data false (m_data m) (l_data l)) as [[dd cur2] ld2].
+  eexists _, _, cur2, ld2. split; [reflexivity|].
+  pose proof (mv_updm s k r _ (fun m => m <| m_data := cur2 |>) S) as M1. cbn [option_map v_m v_l v_q] in M1.
+  pose proof (mv_updl _ k r _ (fun l => l <| l_data := ld2 |>) (proj1 M1)) as M2. cbn [option_map v_m v_l v_q] in M2.
+  pose proof (mv_updl _ k r _ (fun l => l <| l_isaof := isaof |>) (proj1 M2)) as M3. cbn [option_map v_m v_l v_q] in M3.
+  exact (moves_trans _ _ _ _ _ _ _ M1 (moves_trans _ _ _ _ _ _ _ M2 M3)).
+Qed.
+
+(* the `unlocked` part of UnLock for the single hold of a key *)
+Lemma release_hold_mv s k r m l q c :
+  sees s k r (mkV (Some m) (Some l) (Some q)) ->
+  m_ref m = 1 -> m_cur m = Some r -> m_locks m = None ->
+  l_key l = k -> l_long l = true -> l_eT l = MAXT -> l_isaof l = true -> l_refc l = 2 ->
+  leader s = true -> c_flag c = 1 ->
+  exists s' evs, release_hold s k the_conn c r 1 = (s', evs) /\
+    find_panic evs = None /\ find_reply (c_req c) evs = Some (R_SUCCED, get_lock_data (m_data m)) /\
+    moves s s' k r (mkV None None (match remove_ref q r with [] => None | x => Some x end)).
+Proof.
+  intros S Hmr Hmc Hml Hk Hlong HeT Hia Hrc HL Hcf.
+  unfold release_hold.
+  pose proof (mv_updl s k r _ (fun l : lockrec => l <| l_expried := true |>) S) as M1. cbn [option_map v_m v_l v_q] in M1.
+  match type of M1 with moves _ ?t _ _ _ => set (s1 := t) in * end.
+  unfold has_udata_flag. rewrite Hcf. change (has 1 UNLOCK_FLAG_CONTAINS_DATA) with false. cbv iota beta.
+  rewrite !(sees_getl _ _ _ _ _ (proj1 M1) eq_refl). cbn [l_long l_eT set]. rewrite Hlong, HeT.
+  (* remove_long_expried *)
+  unfold remove_long_expried. change (lkey MAXT) with KMAX.
+  destruct M1 as [S1 F1]. pose proof S1 as (_ & _ & Sq1). cbn [v_q] in Sq1. rewrite Sq1.
+  match goal with |- context [updl (s1 <| elong := ?e |>) r ?f] =>
+    pose proof (mv_set_elong s1 k r _ e (match remove_ref q r with [] => None | x => Some x end) S1) as M2;
+    cbn [v_m v_l v_q] in M2;
+    assert (HA : aget e KMAX = match remove_ref q r with [] => None | x => Some x end)
+      by (destruct (remove_ref q r); [apply aget_adel_same|apply aget_aset_same]);
+    specialize (M2 HA); clear HA;
+    pose proof (mv_updl _ k r _ f (proj1 M2)) as M3; cbn [option_map v_m v_l v_q] in M3
+  end.
+  match type of M3 with moves _ ?t _ _ _ => set (s3 := t) in * end.
+  rewrite !(sees_getl _ _ _ _ _ (proj1 M3) eq_refl). cbn [l_isaof l_cmd set]. rewrite Hia.
+  assert (F03 : frame s s3 k r).
+  { eapply frame_trans; [exact F1|]. eapply frame_trans; [exact (proj2 M2)|exact (proj2 M3)]. }
+  destruct (push_unlock_aof_mv s3 k r (l_cmd l) c false 0 _ _ _ (proj1 M3)) as (s4 & rec & cur2 & ld2 & Ea & M4).
+  { rewrite (f_leader _ _ _ _ F03). exact HL. }
+  { rewrite Hcf. reflexivity. }
+  Show. rewrite Ea.
+  (* remove_lock *)
+  unfold remove_lock.
+  pose proof (mv_updl s4 k r _ (fun l : lockrec => l <| l_locked := 0 |> <| l_ack := 255 |>) (proj1 M4)) as M5. cbn [option_map v_m v_l v_q] in M5.
+  match type of M5 with moves _ ?t _ _ _ => set (s5 := t) in * end.
+  rewrite (sees_getm _ _ _ _ _ (proj1 M5) eq_refl). cbn [m_cur m_locks set]. rewrite Hmc, Hml, N.eqb_refl.
+  pose proof (mv_updl s5 k r _ (fun l : lockrec => l <| l_refc := dec8 (l_refc l) |>) (proj1 M5)) as M6. cbn [option_map v_m v_l v_q] in M6.
+  match type of M6 with moves _ ?t _ _ _ =>
+    pose proof (mv_updm t k r _ (fun m : mgr => m <| m_cur := None |>) (proj1 M6)) as M7; cbn [option_map v_m v_l v_q] in M7 end.
+  match type of M7 with moves _ ?t _ _ _ => set (s7 := t) in * end.
+  rewrite !(sees_getl _ _ _ _ _ (proj1 M7) eq_refl). cbn [l_refc set]. rewrite Hrc.
+  change (dec8 (dec8 2) =? 0) with true. cbv iota beta.
+  (* free_lock, remove_mgr_if_unref *)
+  unfold free_lock. destruct M7 as [S7 F7]. pose proof S7 as (Sm7 & Sl7 & Sq7). cbn [v_m v_l v_q] in Sm7, Sl7, Sq7. rewrite Sl7.
+  pose proof (mv_del_store s7 k r _ S7) as M8. cbn [v_m v_l v_q] in M8.
+  cbn [l_key set]. rewrite Hk.
+  match type of M8 with moves _ ?t _ _ _ =>
+    pose proof (mv_updm t k r _ (fun m : mgr => m <| m_ref := dec32 (m_ref m) |>) (proj1 M8)) as M9; cbn [option_map v_m v_l v_q] in M9 end.
+  match type of M9 with moves _ ?t _ _ _ => set (s9 := t) in * end.
+  unfold remove_mgr_if_unref. destruct M9 as [S9 F9]. pose proof S9 as (Sm9 & _). cbn [v_m] in Sm9. rewrite Sm9.
+  cbn [m_ref set]. rewrite Hmr. change (dec32 1 =? 0) with true. cbv iota beta.
+  pose proof (mv_del_mgr s9 k r _ S9) as M10. cbn [v_m v_l v_q] in M10.
+  match type of M10 with moves _ ?t _ _ _ =>
+    pose proof (mv_updc t k r _ (fun c0 : counters => c0 <| n_key := (n_key c0 - 1)%Z |>) (proj1 M10)) as M11 end.
+  match type of M11 with moves _ ?t _ _ _ =>
+    pose proof (mv_bump t k r _ (fun n : counters => n <| n_unlock := (n_unlock n + Z.of_N 1)%Z |> <| n_locked := (n_locked n - Z.of_N 1)%Z |>) (proj1 M11)) as M12 end.
+  eexists _, _. split; [reflexivity|]. split; [reflexivity|]. split.
+  { cbn [app find_reply reply]. unfold the_conn. rewrite !N.eqb_refl. cbn [andb].
+    unfold data_of. rewrite (sees_getm _ _ _ _ _ S1 eq_refl). reflexivity. }
+  split; [exact (proj1 M12)|].
+  eapply frame_trans; [exact F03|]. eapply frame_trans; [exact (proj2 M4)|]. eapply frame_trans; [exact (proj2 M5)|].
+  eapply frame_trans; [exact (proj2 M6)|]. eapply frame_trans; [exact F7|]. eapply frame_trans; [exact (proj2 M8)|].
+  eapply frame_trans; [exact F9|]. eapply frame_trans; [exact (proj2 M10)|]. eapply frame_trans; [exact (proj2 M11)|exact (proj2 M12)].
+Qed.
+
+Lemma unlock_held s rq k r d l q lid :
+  sees s k r (mkV (Some (held_mgr r d)) (Some l) (Some q)) -> hold_ok l k lid -> leader s = true ->
+  exists s' evs,
+    finish (unlock_step s the_conn (delc rq k)) = (s', evs) /\
+    find_panic evs = None /\ find_reply rq evs = Some (R_SUCCED, get_lock_data d) /\
+    moves s s' k r (mkV None None (match remove_ref q r with [] => None | x => Some x end)).
+Proof.
+  intros S Hh HL.
+  pose proof Hh as (H1 & H2 & H3 & H4 & H5 & H6 & H7 & H8 & H9 & H10 & H11 & H12 & H13).
+  unfold unlock_step. cbn [c_key delc c_flag].
+  destruct S as (Sm & Sl & Sq). cbn [v_m v_l v_q] in Sm, Sl, Sq. rewrite Sm.
+  assert (S : sees s k r (mkV (Some (held_mgr r d)) (Some l) (Some q))) by (repeat split; assumption).
+  rewrite HL. cbn [negb andb held_mgr m_locked N.eqb].
+  change (has 1 UNLOCK_FLAG_FROM_AOF) with false.
+  unfold get_locked_lock.
+  match goal with |- context [finish (match ?T with inl _ => _ | inr _ => _ end)] =>
+    assert (XT : exists c', c_flag c' = 1 /\ c_req c' = rq /\ T = inl (Some (r, c'))) end.
+  { cbn [m_cur held_mgr m_locks c_lockid delc]. rewrite !(sees_getl _ _ _ _ _ S eq_refl), H9.
+    destruct (lid =? k).
+    - cbv iota beta. rewrite ?(sees_getl _ _ _ _ _ S eq_refl), H3. change (negb (255 =? 255)) with false. cbv iota.
+      eexists. split; [|split; [|reflexivity]]; reflexivity.
+    - change (has 1 UNLOCK_FLAG_FIRST) with true. cbv iota beta.
+      rewrite ?(sees_getl _ _ _ _ _ S eq_refl), H3. change (negb (255 =? 255)) with false. cbv iota.
+      eexists. split; [|split; [|reflexivity]]; reflexivity. }
+  destruct XT as (c' & Cf & Cr & ->).
+  rewrite !(sees_getl _ _ _ _ _ S eq_refl), H2. change (1 <? 1) with false. cbv iota beta.
+  pose proof (mv_updm s k r _ (fun m : mgr => m <| m_locked := sub32 (m_locked m) 1 |>) S) as M1. cbn [option_map v_m v_l v_q] in M1.
+  destruct (release_hold_mv _ k r _ l q c' (proj1 M1)) as (s' & evs & Er & Hp & Hr & M2); auto.
+  { rewrite (f_leader _ _ _ _ (proj2 M1)). exact HL. }
+  rewrite Er. unfold finish, run_wake, wake_fuel, wake_iter. cbn [w_key].
+  destruct M2 as [S2 F2]. pose proof S2 as (Sm2 & _). cbn [v_m] in Sm2. rewrite Sm2.
+  exists s', (evs ++ []). split; [reflexivity|]. rewrite app_nil_r. split; [exact Hp|]. split; [rewrite <- Cr; exact Hr|].
+  split; [exact S2|eapply frame_trans; [exact (proj2 M1)|exact F2]].
 Qed.
